@@ -418,6 +418,20 @@ fn gen_trailing_decl_program(rng: &mut Rng) -> (String, Expect, &'static str) {
     (src, Expect { out: Some(out), value: Some(value), error: None, host_calls: Some(calls) }, class)
 }
 
+/// regression of D113 (fix 39422dd): a task that ends with a runtime error is released — many failing tasks
+/// spawned one after the other never pile up in the run queue
+fn gen_failing_tasks_program(rng: &mut Rng) -> (String, Expect, &'static str) {
+    let n = rng.range(20, 60);
+    let mut s = String::from(PC_PRELUDE);
+    let fail = match rng.below(3) {
+        0 => "let a = [1, 2]\n  let y = a[k]",
+        1 => "let z = k - k\n  let y = 10 / z",
+        _ => "panic(\"task fails\")",
+    };
+    s.push_str(&format!("fn boom(k: int) -> void {{\n  {fail}\n}}\nvar i = 0\nwhile i < {n} {{\n  task {{\n    boom(5)\n  }}\n  spin(12)\n  i = i + 1\n}}\nspin(30)\ni\n"));
+    (s, Expect { out: Some(String::new()), value: Some(format!("int:{n}")), error: None, host_calls: None }, "d113:many-failing-tasks")
+}
+
 fn random_schedule(rng: &mut Rng) -> Schedule {
     match rng.below(6) {
         0 => Schedule::constant(1),
@@ -469,6 +483,11 @@ fn main() {
         }
     }
     let mut jobs: Vec<Job> = vec![];
+    for _ in 0..(n / 10).max(6) {
+        let (src, expect, class) = gen_failing_tasks_program(&mut ctx.rng);
+        let sched = random_schedule(&mut ctx.rng);
+        jobs.push(Job { host_file: false, src, class, sched, expect, model_host: None });
+    }
     for _ in 0..n {
         let (src, expect, class) = gen_trailing_decl_program(&mut ctx.rng);
         let sched = random_schedule(&mut ctx.rng);
@@ -592,7 +611,13 @@ fn main() {
                 ctx.count("main-error:while-task-pending");
             }
             if c.queue.iter().any(|(id, f)| *id != t.main_id && f == "e") {
-                ctx.count("task-failed-in-queue");
+                // D113 (fix 39422dd): a failed task is released at the end of its turn
+                pf.push(format!("call {ci}: a task that failed is still parked in the run queue (run queue: {:?}) :: {} :: {}",
+                    c.queue.iter().map(|(_, f)| f.as_str()).collect::<Vec<_>>(), j.sched.describe(), prog()));
+            }
+            if j.class.starts_with("d113") && c.queue.len() > 4 {
+                pf.push(format!("call {ci}: {} threads in the run queue although every task fails at once (they must be released) :: {} :: {}",
+                    c.queue.len(), j.sched.describe(), prog()));
             }
             if c.steps < c.call.budget && !done && !c.status.starts_with("err") {
                 ctx.count("call:ended-early(all blocked)");
